@@ -21,6 +21,9 @@
 (*   -f file    program source; several are concatenated in order          *)
 (*   -E file    like -f, ends the options, var=value operands are files    *)
 (*   -c         characters instead of bytes (no effect on the probe)       *)
+(*   -N mode    newline translation of the output: raw, smart (= raw on    *)
+(*              this platform), crlf (every LF written becomes CR LF);     *)
+(*              any other mode is an error                                 *)
 (*   -version   prints the version, exit 0, nothing else happens           *)
 (* Without -f / -E the first remaining argument is the program text; what  *)
 (* remains are the operands (ARGV[1..]).  Errors (an option without its    *)
@@ -36,18 +39,22 @@ IsPrefixOf(p, str) == Len(p) <= Len(str) /\ SubSeq(str, 1, Len(p)) = p
 Rest(str, n) == SubSeq(str, n + 1, Len(str))
 
 OptF == <<MINUS, C_F>>   Optv == <<MINUS, c_v>>   Optf == <<MINUS, c_f>>   OptE == <<MINUS, C_E>>
+OptN == <<MINUS, C_N>>
+ModeCrlf == <<c_c, c_r, c_l, c_f>>   ModeRaw == <<c_r, c_a, c_w>>   ModeSmart == <<c_s, c_m, c_a, c_r, c_t>>
 Optc == <<MINUS, c_c>>   OptVersion == <<MINUS, c_v, c_e, c_r, c_s, c_i, c_o, c_n>>
 DashDash == <<MINUS, MINUS>>   Dash == <<MINUS>>
 
 \* scan state: i next argument; pf program files; vars the -v texts; fs; noargvars; res "scan" | "done" | "error" | "version"
-Scan0 == [i |-> 1, pf |-> <<>>, vars |-> <<>>, fs |-> <<SP>>, noargvars |-> FALSE, res |-> "scan"]
+Scan0 == [i |-> 1, pf |-> <<>>, vars |-> <<>>, fs |-> <<SP>>, noargvars |-> FALSE, crlf |-> FALSE, res |-> "scan"]
 
-ValueOpts == {OptF, Optv, Optf, OptE}
+ValueOpts == {OptF, Optv, Optf, OptE, OptN}
 SetOpt(sc, opt, val) ==
   CASE opt = OptF -> [sc EXCEPT !.fs = val]
     [] opt = Optv -> [sc EXCEPT !.vars = Append(@, val)]
     [] opt = Optf -> [sc EXCEPT !.pf = Append(@, val)]
     [] opt = OptE -> [sc EXCEPT !.pf = Append(@, val), !.noargvars = TRUE, !.res = "done"]
+    [] opt = OptN -> IF val \in {ModeCrlf, ModeRaw, ModeSmart} THEN [sc EXCEPT !.crlf = (val = ModeCrlf)]
+                     ELSE [sc EXCEPT !.res = "error"]                  \* -N arg can only be one of: smart, raw, crlf
 
 ScanStep(av, sc) ==
   IF sc.i > Len(av) THEN [sc EXCEPT !.res = "done"]
@@ -102,6 +109,10 @@ Unesc(str) ==
 EqPos(str) == IF \E j \in 1..Len(str) : str[j] = EQ THEN Min({j \in 1..Len(str) : str[j] = EQ}) ELSE 0
 VarName(bytes) == CASE bytes = <<c_x>> -> "x" [] bytes = <<c_w>> -> "w" [] OTHER -> ""
 
+\* newline translation of -N crlf: every LF of the output (which holds no CR) becomes CR LF
+RECURSIVE CrLf(_)
+CrLf(str) == IF str = <<>> THEN <<>> ELSE (IF str[1] = LF THEN <<CR, LF>> ELSE <<str[1]>>) \o CrLf(Tail(str))
+
 \* ---- the outcome of a whole argument vector
 \* [kind |-> "run", out, status, err] | [kind |-> "error"] | [kind |-> "version"] | [kind |-> "unjudged", why]
 Unjudged(why) == [kind |-> "unjudged", why |-> why]
@@ -133,7 +144,7 @@ Outcome0(av) ==
                                      args |-> [j \in 1..Len(operands) |-> operands[j].b], noargvars |-> sc.noargvars])
                       o == Outcome(fin)
                   IN IF o.bad THEN Unjudged("the run is outside the model of AwkSem (missing file operand, ...)")
-                     ELSE [kind |-> "run", out |-> o.out, status |-> o.status, err |-> o.err]
+                     ELSE [kind |-> "run", out |-> IF sc.crlf THEN CrLf(o.out) ELSE o.out, status |-> o.status, err |-> o.err]
 
 \* ---- laws of the option scan (checked by MC_CommandLine on every vector of its menu)
 \* nothing after the program text (or after --, or after -E file) is an option any more
